@@ -30,6 +30,8 @@ THEOREMS = {
         "github_declared_partial", "snyk_declared_partial")],
 }
 LEVEL = "proof"
+# textual tie (regular expressions of /repo as the recognisers read them): runner step 3a
+TIE_THEOREMS = {"Univers.Scheme.RegexPins": ["Univers.Tables.regex_sites_pinned", "Univers.Tables.compiled_patterns_pinned"]}
 RULE = ("(1) every parsing entry point of the real code against its Lean model on generated, mutated, empty, whitespace-only and "
         "long repetitive ASCII inputs (error classes compared by exact name); (2) the property's oracle on the real code: arbitrary "
         "text over the characters versions and ranges are made of, structure-aware mutations (dropped / doubled / swapped "
